@@ -10,6 +10,8 @@ CONSTANTS
   SrvMayClose = TRUE
   Reactions <- AllReactions
   HandlerReconnect = TRUE
+  SrvMayStall = FALSE
+  ShutdownBoth = TRUE
   Fixed = TRUE
   Emit = FALSE
 PROPERTY NoCrossTeardown
